@@ -40,6 +40,7 @@ type c18Scn struct {
 	Buf       int         `json:"buf"`
 	SlowEst   bool        `json:"slow_est,omitempty"` // the Established callback takes a few milliseconds
 	Push      bool        `json:"push,omitempty"`     // an application goroutine keeps sending to every established client through its ServerChannel
+	Odd       bool        `json:"odd,omitempty"`        // besides the clients: on every listener a peer whose only envelope is a session that cannot start one, gone at once
 	NoBacklog bool        `json:"no_backlog,omitempty"` // the queue between acceptors and consumer has no buffer (Backlog 0): a pure hand-off
 }
 
@@ -543,6 +544,18 @@ func c18Sessions(scn *c18Scn) c18Obs {
 			}(i, c)
 		}
 	}
+	if scn.Odd {
+		// no session may come of these, so no callback either: whatever fires for them counts as stray
+		for _, k := range s.kinds {
+			for _, st := range []lime.SessionState{lime.SessionStateAuthenticating, lime.SessionStateEstablished} {
+				if t, err := s.dial(ctx, k); err == nil {
+					_ = t.Send(ctx, &lime.Session{State: st})
+					_ = t.Close()
+				}
+			}
+		}
+		time.Sleep(3 * time.Millisecond)
+	}
 	if scn.DelayUs > 0 {
 		time.Sleep(time.Duration(scn.DelayUs) * time.Microsecond)
 	}
@@ -787,7 +800,7 @@ func maxInt(a, b int) int {
 func runC18(env *Env) error {
 	env.Header = "From Coq Require Import List Bool Arith.\nImport ListNotations.\nFrom Lime Require Import Base.Res Life.Handler Life.Server Corr.C18.\n"
 	env.ShardSize = 100
-	env.Rule = "real Server, each scenario in its own process: (startstop) ListenAndServe and Close racing at start-up, 1-3 listeners of every kind, repeated; (gated) Close while the consumer is held before its select / while an acceptor holds an accepted transport (build-tag gates); (sessions) 1-8 clients over in-process, TCP and WebSocket in the phases idle, after traffic, sending while Close runs, stalled mid-handshake, failed authentication, finished earlier, vanished earlier, connecting while Close runs; the queue between acceptors and consumer with 4 slots or none (Backlog 0). Non-trivial: a gated scenario, a start-up race with two or more listeners, or at least two clients. Distinct by printed scenario."
+	env.Rule = "real Server, each scenario in its own process: (startstop) ListenAndServe and Close racing at start-up, 1-3 listeners of every kind, repeated; (gated) Close while the consumer is held before its select / while an acceptor holds an accepted transport (build-tag gates); (sessions) 1-8 clients over in-process, TCP and WebSocket in the phases idle, after traffic, sending while Close runs, stalled mid-handshake, failed authentication, finished earlier, vanished earlier, connecting while Close runs, optionally next to peers whose only envelope cannot start a session and who vanish at once; the queue between acceptors and consumer with 4 slots or none (Backlog 0). Non-trivial: a gated scenario, a start-up race with two or more listeners, or at least two clients. Distinct by printed scenario."
 	var rc c18Case
 	if ok, err := env.ReplayDesc(&rc); err != nil {
 		return err
@@ -827,10 +840,12 @@ func runC18(env *Env) error {
 		scns = append(scns, c18Scn{Kind: "sessions", Listeners: all, Buf: 4, Push: true,
 			Clients: []c18Client{{Kind: k, Phase: "idle", Msgs: 1}, {Kind: k, Phase: "traffic", Msgs: 2}}})
 	}
+	scns = append(scns, c18Scn{Kind: "sessions", Listeners: all, Buf: 4, Odd: true,
+		Clients: []c18Client{{Kind: "inproc", Phase: "idle"}, {Kind: "tcp", Phase: "traffic", Msgs: 2}}})
 	nmix := env.Pick(14, 80)
 	for m := 0; m < nmix; m++ {
 		n := 2 + env.Rng.Intn(env.Pick(4, 7))
-		sc := c18Scn{Kind: "sessions", Listeners: all, Buf: []int{0, 1, 4, 16}[env.Rng.Intn(4)], DelayUs: env.Rng.Intn(3) * 200, SlowEst: m%2 == 0, Push: m%3 == 0, NoBacklog: m%4 == 1}
+		sc := c18Scn{Kind: "sessions", Listeners: all, Buf: []int{0, 1, 4, 16}[env.Rng.Intn(4)], DelayUs: env.Rng.Intn(3) * 200, SlowEst: m%2 == 0, Push: m%3 == 0, NoBacklog: m%4 == 1, Odd: m%3 == 1}
 		for i := 0; i < n; i++ {
 			sc.Clients = append(sc.Clients, c18Client{Kind: all[env.Rng.Intn(3)], Phase: phases[env.Rng.Intn(len(phases))], Msgs: env.Rng.Intn(4)})
 		}
@@ -862,6 +877,9 @@ func runC18(env *Env) error {
 		}
 		if c.Scn.NoBacklog {
 			env.Count("backlog=0")
+		}
+		if c.Scn.Odd {
+			env.Count("peers-that-cannot-start-a-session")
 		}
 		for _, cl := range c.Scn.Clients {
 			env.Count("phase=" + cl.Phase)
